@@ -16,6 +16,9 @@ import PyTough.Proofs.ListingFile
 import PyTough.Proofs.ListingWhole
 import PyTough.Proofs.ListingWholeAut
 import PyTough.Proofs.ListingWholeBlock
+import PyTough.Proofs.ListingFileWholeT2
+import PyTough.Proofs.ListingFileWholeAutBlock
+import PyTough.Proofs.ListingFileWholeSetupA
 import PyTough.Gen.ListingBind
 
 namespace Props.C05
@@ -598,5 +601,141 @@ example : Proofs.Whole.EntryOk exRdB.skipTables exRdB.tables exE1 ∧ Proofs.Who
 example : Proofs.Whole.LinksOk exRdB.fulltimes.size exRdB.fullpos exRdB.index exRdB.pos.no [exE1, exE2] ∧
     Proofs.Whole.EndOk exRdB.fulltimes.size exRdB.fullpos exRdB.index (Proofs.Whole.endNo exRdB.pos.no [exE1, exE2]) ["\n".toList] none := by
   refine ⟨⟨⟨by decide, by decide, by decide, by decide, by decide, by decide, by decide, by decide, by decide⟩, trivial⟩, by decide, trivial⟩
+
+/-! ### all tables of one result block (AUTOUGH2): read_tables_AUTOUGH2, with some tables skipped
+
+  A block is a list of entries (`Proofs.Whole.AEntry`), one per table: the three lines `read_header_AUTOUGH2` reads in
+  front of every table (title line `tl`, the `… AFTER n TIME STEPS … t SECONDS` line `hl`, one more line `l3`), the
+  table's lines — a table that is read (`AKind.read t A b B b2 Bl D term`: the region of `table_read_AUTOUGH2`) or one
+  that is skipped because it is in `skip_tables` (`AKind.skip A b R term`: non-blank lines `A`, a blank line, lines `R`
+  without the keyword in columns 1..5, the terminator line) — and, when another table follows, the line `x1` behind the
+  terminator and the line `kwl` that `next_table_AUTOUGH2` reads (the keyword line of the next table).  `EntryOkA`,
+  `LinksOkA`, `EndOkA` (Proofs/ListingFileWholeAutBlock.lean) are the decidable well-formedness conditions;
+  `RegionAOk` there is `TableRegionA` here.  `read_tables_AUTOUGH2` is this loop with fuel `len(remaining lines) + 2`
+  (`Proofs.Whole.readTables_A`); the theorem holds for any fuel above the number of tables. -/
+
+example (tn : String) (t : Table) (A : List Str) (b : Str) (B : List Str) (b2 : Str) (Bl D : List Str) (term : Str) :
+    Proofs.Whole.RegionAOk tn t A b B b2 Bl D term ↔ TableRegionA tn t A b B b2 Bl D term := Iff.rfl
+
+open Proofs.Whole in
+/-- what a reader state `s'` holds after the tables `L` of an AUTOUGH2 block have been gone through from state `s`:
+    every table the block reads holds in row `j` exactly the values `read_table_line_AUTOUGH2` returns for ITS OWN
+    `j`-th printed data line, one per column (rows beyond the printed lines keep what they held; names, columns and
+    layout unchanged) — whatever tables before it were read or skipped; every table no entry reads keeps its contents -/
+def HoldsBlockA (s s' : Rd) (L : List AEntry) : Prop :=
+  (∀ x ∈ L, ∀ t A b B b2 Bl D term, x.kind = .read t A b B b2 Bl D term →
+    ∃ t', s'.tables.lookup x.tn = some t' ∧ t' = { t with data := t'.data } ∧
+      (∀ (j : Nat) d, D[j]? = some d →
+        ∃ vals, readTableLineAUTOUGH2 d (t.numpos.headD none) = .ok vals ∧ vals.length = t.cols.length ∧
+          t'.data[j]? = some vals.toArray) ∧
+      (∀ i, D.length ≤ i → t'.data[i]? = t.data[i]?)) ∧
+  (∀ m, (∀ x ∈ L, x.tn = m → ∃ A b R term, x.kind = .skip A b R term) → s'.tables.lookup m = s.tables.lookup m)
+
+open Proofs.Whole in
+private theorem holdsBlockA_foldl (s : Rd) (L : List AEntry) (T' : List (String × Table))
+    (hT : T' = L.foldl (fun T x => stepTablesA x T) s.tables)
+    (hnodup : (L.map (·.tn)).Nodup) (hok : ∀ x ∈ L, EntryOkA s.skipTables s.tables x) (s' : Rd) (hs' : s'.tables = T') :
+    HoldsBlockA s s' L := by
+  subst hT
+  refine ⟨?_, ?_⟩
+  · intro x hx t A b B b2 Bl D term hk
+    have hxok := (hok x hx).2
+    rw [hk] at hxok
+    simp only at hxok
+    rw [hs']
+    refine ⟨_, foldlA_lookup_read L s.tables x t A b B b2 Bl D term hx hk hnodup (by rw [hxok.2.1]; rfl), rfl, ?_, ?_⟩
+    · intro j d hj
+      exact upsA_row x.tn t A b B b2 Bl D term hxok.2.2 j d hj
+    · intro i hi
+      exact upsA_row_beyond t D i hi
+  · intro m hm
+    rw [hs']
+    exact foldlA_lookup_not_read L s.tables m hm
+
+open Proofs.Whole in
+/-- **Every table of the block holds the values of its own region; skipping some tables changes nothing else
+    (AUTOUGH2).**  The loop of `read_tables_AUTOUGH2` over a well-formed block returns; the file is left two lines
+    behind the last terminator line (or at the end of the file); `HoldsBlockA`; title, step and time are those of the
+    header lines in front of the last table; nothing else of the reader changes. -/
+theorem tables_read_block_AUTOUGH2 (e : AEntry) (more : List AEntry) (E : List Str) (s : Rd)
+    (hhd : bound s.fam "read_header" = "read_header_AUTOUGH2") (hti : bound s.fam "read_title" = "read_title_AUTOUGH2")
+    (hrd : bound s.fam "read_table" = "read_table_AUTOUGH2") (hsk : bound s.fam "skip_table" = "skip_table_AUTOUGH2")
+    (hnt : bound s.fam "next_table" = "next_table_AUTOUGH2") (htt : bound s.fam "table_type" = "table_type_AUTOUGH2")
+    (hnodup : ((e :: more).map (·.tn)).Nodup)
+    (hok : ∀ x ∈ e :: more, EntryOkA s.skipTables s.tables x)
+    (hlinks : LinksOkA (e :: more)) (hend : EndOkA E)
+    (hrest : s.pos.rest = blockLinesA (e :: more) E)
+    (fuel : Nat) (hfuel : more.length < fuel) :
+    ∃ s', (tablesLoop actA true false fuel e.tn 0).run s = .ok ((), s') ∧
+      s'.pos = ⟨endNoA s.pos.no (e :: more) + min 2 E.length, E.drop 2⟩ ∧
+      HoldsBlockA s s' (e :: more) ∧
+      s'.title = strip (lastE e more).tl ∧ headerAVals (lastE e more).hl = some (s'.step, s'.time) ∧
+      s' = { s with pos := s'.pos, tables := s'.tables, title := s'.title, step := s'.step, time := s'.time } := by
+  have hrun := tablesLoopA_block e more E s fuel 0 hfuel hhd hti hrd hsk hnt htt hnodup hok hlinks hend hrest
+  refine ⟨_, hrun, rfl, holdsBlockA_foldl s (e :: more) _ rfl hnodup hok _ rfl, rfl, ?_, rfl⟩
+  exact headerAVals_hvA _ (hok _ (lastE_mem e more)).1
+
+open Proofs.Whole in
+/-- **Composition over the result blocks of a file (AUTOUGH2): `set_index(i)` shows block `i`'s own numbers.**
+    When the position recorded for result `i` in `fullpos` is the start of a well-formed block (the explicit,
+    decidable hypotheses `hprest`, `hok`, `hlinks`, `hend` — the block is the one printed at that place of the file,
+    its first table is the element table), `set_index(i)` (negative `i` counted from the end, as coded) returns, the
+    index is `i` normalised, and every table holds the numbers of that block's own region (`HoldsBlockA`), whatever
+    the reader held before. -/
+theorem set_index_reads_block_AUTOUGH2 (s : Rd) (i : Int) (jn : Nat) (p : Pos)
+    (e : AEntry) (more : List AEntry) (E : List Str)
+    (hj : (if i < 0 then i + (s.fullpos.size : Int) else i) = (jn : Int)) (hjn : jn < s.fullpos.size)
+    (hp : s.fullpos[jn]! = p)
+    (hel : e.tn = "element")
+    (hrt : bound s.fam "read_tables" = "read_tables_AUTOUGH2")
+    (hhd : bound s.fam "read_header" = "read_header_AUTOUGH2") (hti : bound s.fam "read_title" = "read_title_AUTOUGH2")
+    (hrd : bound s.fam "read_table" = "read_table_AUTOUGH2") (hsk : bound s.fam "skip_table" = "skip_table_AUTOUGH2")
+    (hnt : bound s.fam "next_table" = "next_table_AUTOUGH2") (htt : bound s.fam "table_type" = "table_type_AUTOUGH2")
+    (hprest : p.rest = blockLinesA (e :: more) E)
+    (hnodup : ((e :: more).map (·.tn)).Nodup)
+    (hok : ∀ x ∈ e :: more, EntryOkA s.skipTables s.tables x)
+    (hlinks : LinksOkA (e :: more)) (hend : EndOkA E) :
+    ∃ s', (setIndex i).run s = .ok ((), s') ∧
+      s'.index = (if i < 0 then i + (s.fulltimes.size : Int) else i) ∧
+      s'.pos = ⟨endNoA p.no (e :: more) + min 2 E.length, E.drop 2⟩ ∧
+      HoldsBlockA s s' (e :: more) ∧
+      s'.title = strip (lastE e more).tl ∧ headerAVals (lastE e more).hl = some (s'.step, s'.time) ∧
+      s' = { s with pos := s'.pos, index := s'.index, tables := s'.tables, title := s'.title, step := s'.step, time := s'.time } := by
+  have hrun := setIndex_block_A s i jn p e more E hj hjn hp hel hrt hhd hti hrd hsk hnt htt hprest hnodup hok hlinks hend
+  refine ⟨_, hrun, rfl, rfl, holdsBlockA_foldl s (e :: more) _ rfl hnodup hok _ rfl, rfl, ?_, rfl⟩
+  exact headerAVals_hvA _ (hok _ (lastE_mem e more)).1
+
+-- the hypotheses are satisfiable: an element table (the region of the example above, laid out as AUTOUGH2 prints it) is
+-- read, a connection table in the skip list is skipped; the block is the one recorded in `fullpos`
+private def exA1 : Proofs.Whole.AEntry :=
+  { tn := "element", tl := " AUTOUGH2 case 1\n".toList,
+    hl := " OUTPUT AFTER  27 TIME STEPS    0.1000000000000000E+16 SECONDS\n".toList,
+    l3 := " THE TIME IS 0.3169E+08 YEARS\n".toList,
+    kind := .read exTA [" EEEEEEEEEEEEEEE\n".toList, "        ELEMENT TABLE\n".toList] "\n".toList [" ELEMENT INDEX P T X\n".toList]
+      "\n".toList [] exDA " EEEEEEEEEEEEEEE\n".toList,
+    x1 := "\n".toList, kwl := " CCCCCCCCCCCCCCC\n".toList }
+private def exA2 : Proofs.Whole.AEntry :=
+  { tn := "connection", tl := " AUTOUGH2 case 1\n".toList,
+    hl := " OUTPUT AFTER  27 TIME STEPS    0.1000000000000000E+16 SECONDS\n".toList,
+    l3 := " THE TIME IS 0.3169E+08 YEARS\n".toList,
+    kind := .skip [" CCCCCCCCCCCCCCC\n".toList, "        CONNECTION TABLE\n".toList] "\n".toList
+      [" ELEM1 ELEM2 INDEX FLOH\n".toList, "\n".toList, "    AA  1 AA  2         1      0.10000E+01\n".toList] " CCCCCCCCCCCCCCC\n".toList }
+private def exRdAB : Rd :=
+  let ls := Proofs.Whole.blockLinesA [exA1, exA2] ["\n".toList]
+  { all := " EEEEEEEEEEEEEEE\n".toList :: ls, isOutputData := false, pos := ⟨0, " EEEEEEEEEEEEEEE\n".toList :: ls⟩, fam := .autough2,
+    tables := [("element", exTA)], skipTables := ["connection"], fullpos := #[⟨1, ls⟩], fulltimes := #[zero] }
+example : bound exRdAB.fam "read_tables" = "read_tables_AUTOUGH2" ∧ bound exRdAB.fam "read_header" = "read_header_AUTOUGH2" ∧
+    bound exRdAB.fam "read_title" = "read_title_AUTOUGH2" ∧ bound exRdAB.fam "read_table" = "read_table_AUTOUGH2" ∧
+    bound exRdAB.fam "skip_table" = "skip_table_AUTOUGH2" ∧ bound exRdAB.fam "next_table" = "next_table_AUTOUGH2" ∧
+    bound exRdAB.fam "table_type" = "table_type_AUTOUGH2" ∧ (([exA1, exA2]).map (·.tn)).Nodup ∧ exA1.tn = "element" := by decide
+example : Proofs.Whole.headerAVals exA1.hl = some (some 27, .fin false 1000000000000000 0) := by decide
+example : Proofs.Whole.EntryOkA exRdAB.skipTables exRdAB.tables exA1 ∧ Proofs.Whole.EntryOkA exRdAB.skipTables exRdAB.tables exA2 :=
+  ⟨⟨by decide, by decide, rfl, by decide⟩, ⟨by decide, by decide, by decide, by decide, by decide, by decide⟩⟩
+example : Proofs.Whole.LinksOkA [exA1, exA2] ∧ Proofs.Whole.EndOkA ["\n".toList] ∧
+    (if (0 : Int) < 0 then (0 : Int) + (exRdAB.fullpos.size : Int) else 0) = ((0 : Nat) : Int) ∧ 0 < exRdAB.fullpos.size ∧
+    (exRdAB.fullpos[0]!).rest = Proofs.Whole.blockLinesA [exA1, exA2] ["\n".toList] ∧
+    exRdAB.pos.rest.drop 1 = Proofs.Whole.blockLinesA [exA1, exA2] ["\n".toList] :=
+  ⟨⟨by decide, trivial⟩, by decide, by decide, by decide, rfl, rfl⟩
+
 
 end Props.C05
